@@ -4,8 +4,14 @@
 #[global_allocator]
 static ALLOC: simcore::alloc::SimAlloc = simcore::alloc::SimAlloc;
 
+mod c12;
+mod c14;
+mod c20;
 mod c26;
 mod c27;
+mod fields;
+mod merkle;
+mod sched;
 mod streams;
 
 pub fn config_name() -> &'static str {
@@ -24,6 +30,10 @@ pub fn exh_index(total: u64) -> u64 {
 
 fn main() {
     let mut scs = Vec::new();
+    scs.extend(c12::scenarios());
+    scs.extend(c14::scenarios());
+    scs.extend(merkle::scenarios());
+    scs.extend(c20::scenarios());
     scs.extend(c26::scenarios());
     scs.extend(c27::scenarios());
     simcore::driver::main(scs, config_name());
